@@ -57,6 +57,7 @@ def run(ctx):
             ctx.violation("a reused Searcher (multi-line, reader input) delivers different results than a fresh one",
                           dict(kind=205, line=lines[i], case=sg.describe(cases[i]), fresh=a, reused=b))
     regex_cases(ctx, feat)
+    inverted_partition(ctx, feat)
     cli_strategies(ctx)
     ctx.cov["features"] = feat
     ctx.cov["rule"] = ("random multi-line searcher cases (needles touching/spanning the terminator, anchored needles = "
@@ -151,6 +152,53 @@ def regex_cases(ctx, feat):
             ctx.violation("multi-line search with the real regex matcher differs from the specification (lines covered "
                           "by the successive find_at matches over the whole input)",
                           dict(kind=1302, line=lines[i], case=desc, code=code_res, ref=ref_res))
+
+
+def inverted_partition(ctx, feat):
+    """independent of any model: with the real RegexMatcher, the lines `-U -v` reports and the lines `-U` reports partition
+    the input (every line is reported by exactly one of the two searches)"""
+    rng = ctx.rng
+    n = ctx.count(500)
+    cases = []
+    fixed = [("a\\nb|b\\nc", b"a\nbb\nc\n"), ("a\\nb|b", b"a\nbb\nc\n"), ("b\\n|\\nc", b"ab\n\nc\nb\n"), ("a|\\z", b"a\nb\nc\n")]
+    for pat, inp in fixed:
+        cases.append((sg._cfg(multi_line=True), pat, inp))
+    for _ in range(n):
+        c = sg._cfg(multi_line=True)
+        if rng.random() < 0.2:
+            c["crlf"] = True
+        pat = rng.choice(REGEX_PATTERNS + ["a\\nb|b\\nc", "b\\n|\\nc", "a\\n|\\nb", "(a|b)\\n(a|b)|b\\nx"])
+        inp = sg.gen_input(rng, c, max_lines=7, max_len=3)
+        if rng.random() < 0.3:
+            inp = inp.replace(b"x", b"c")
+        cases.append((c, pat, inp))
+    lines_n, lines_i = [], []
+    for c, pat, inp in cases:
+        ci = dict(c)
+        ci["invert"] = True
+        lines_n.append(vlib.vlist([sg.cfg_val(c), vlib.vbytes(pat.encode()), vlib.vbytes(inp), vlib.vbool(False), "()", vlib.vbool(False)]))
+        lines_i.append(vlib.vlist([sg.cfg_val(ci), vlib.vbytes(pat.encode()), vlib.vbytes(inp), vlib.vbool(False), "()", vlib.vbool(False)]))
+    on, oi = vlib.code(1302, lines_n), vlib.code(1302, lines_i)
+    for (c, pat, inp), ln, a, b in zip(cases, lines_n, on, oi):
+        va = parse_val(a) if a.startswith("(") else None
+        vb = parse_val(b) if b.startswith("(") else None
+        if not va or not vb or va[0] == 0 or vb[0] == 0 or not va[1] or not vb[1]:
+            continue
+        ltb = bytes([c["ltbyte"]])
+        total = inp.count(ltb) + (0 if inp.endswith(ltb) or not inp else 1)
+        covered = set()
+        for e in va[3][1]:
+            if e[0] == 1:
+                first = e[2][0]
+                k = e[3].count(ltb) + (0 if e[3].endswith(ltb) else 1)
+                covered.update(range(first, first + k))
+        inverted = [e[2][0] for e in vb[3][1] if e[0] == 1]
+        feat["inverted_partition"] = feat.get("inverted_partition", 0) + 1
+        ctx.note_case("inv" + ln, bool(covered) and bool(inverted))
+        if sorted(inverted) != sorted(set(range(1, total + 1)) - covered) or len(set(inverted)) != len(inverted):
+            ctx.violation("the lines reported by the inverted multi-line search are not exactly the lines the non-inverted search does not report",
+                          dict(kind=1302, line=ln, case=dict(cfg=c, pattern=pat, input=inp.decode("latin1")),
+                               matching_lines=sorted(covered), inverted_lines=inverted, total_lines=total))
 
 
 def vlib_to_text(v):
